@@ -4,7 +4,7 @@
    resistance is not assumed — where it is needed the conclusion carries the disjunct
    [Collision H], built constructively from the inputs of the theorem. *)
 From Coq Require Import List ZArith NArith Bool.
-From TM Require Import Common.Hex Common.Sha256 Generated.Consts C10.Model C10.Proofs C10.Sender C10.Iter.
+From TM Require Import Common.Hex Common.Sha256 Generated.Consts C10.Model C10.Proofs C10.Sender C10.Iter C10.Depth.
 Import ListNotations.
 Open Scope Z_scope.
 
@@ -83,6 +83,18 @@ Theorem C10_iterative_eq_recursive :
   forall (H : bytes -> bytes) (items : list bytes), root_iterative H items = root H items.
 Proof. exact iterative_eq_recursive. Qed.
 Print Assumptions C10_iterative_eq_recursive.
+
+(* Proof.ValidateBasic never refuses a genuine proof: at most ceil(log2 n) aunts, all of digest
+   length, so every tree of up to 2^MaxAunts leaves yields proofs within the limits
+   (MaxAunts and the digest size are regenerated from the Go source). *)
+Theorem C10_genuine_proof_validates :
+  forall (H : bytes -> bytes) (hlen : nat), (forall x, length (H x) = hlen) ->
+  forall (items : list bytes) (i : nat),
+    Z.of_nat hlen = tmhash_size ->
+    (i < length items)%nat -> Z.of_nat (length items) <= 2 ^ merkle_max_aunts ->
+    proof_validate_basic (proof_of H items i) = true.
+Proof. exact genuine_proof_validates. Qed.
+Print Assumptions C10_genuine_proof_validates.
 
 (* ---- the sender's side, and sender to receiver end to end (C10/Sender.v) ---- *)
 
